@@ -8,15 +8,61 @@ RULE = ("(c) AT&T templates over all general-purpose registers and widths, scale
         "refuses; a share of the listings is saved with CRLF line endings. The text goes through the assembly route; for every instruction whose operands are all in the forms listed "
         "by the property the decoded stream operands must equal R-line's normal-form table ($v->v, %r, k(a,b,c)->[a+b*c+k], "
         "(a,b,c)->[a+b*c], k(,b,c)->[+b*c+k], k(a)->[a+k], (a)->[a], 'addr <sym>'->addr) in content, number and order; "
-        "for other shapes only the operand count is judged. Non-trivial/distinct = distinct (mnemonic, operand-shape) "
+        "for other shapes only the operand count is judged; instructions printed with prefixes are judged on the operands after "
+        "their mnemonic token (open finding prefixed_instruction_operands_lost). 35 % of the listings are run again under a rule with "
+        "valid_addr_range (only branch targets may change) and then once more without it in the same process (the stream must be the first one again). Non-trivial/distinct = distinct (mnemonic, operand-shape) "
         "signatures of judged instructions.")
 FLOOR = {"quick": 150, "thorough": 400}
 ANCHOR_HINTS = ["asm_manual_parser_w_regex"]
-REQUIRED_EVENTS = ["instructions_judged"]
+REQUIRED_EVENTS = ["instructions_judged", "listings_rerun_with_range_then_without"]
+
+
+BRANCHES = ("call", "jmp", "j", "loop", "xbegin", "bnd")
+
+
+def judge_records(ctx, dec, rinsts, origin, note="", skip_branches=False):
+    for d, ri in zip(dec, rinsts):
+        if "," in ri.parsed.mnemonic:
+            continue
+        if skip_branches and ri.parsed.mnemonic.startswith(BRANCHES):
+            continue                     # what valid_addr_range does to branch targets is C18's subject
+        if ri.parsed.prefixes:
+            # prefixed instructions: the operands are those after the mnemonic token, like for any other line
+            specified = all(o is not None for o in ri.ops_norm)
+            want = tuple(ri.ops_norm) if ri.ops_norm else ("",)
+            ctx.event("prefixed_instructions_judged")
+            ok = (d[2] == want) if specified else (len(d[2]) == max(1, len(ri.ops_att)))
+            if not ok:
+                pr = ri.prefix_as_mnemonic()
+                key = "prefixed_instruction_operands_lost" if pr is not None and d[1] == pr[0] and list(d[2]) == [pr[1]] else None
+                ctx.disagreement({"origin": origin, "listing": ri.raw + "\n"},
+                                 f"{note}operands {list(d[2])} (mnemonic {d[1]!r}) for the prefixed line {ri.raw!r}; its operands are {list(want) if specified else ri.ops_att}", key)
+            continue
+        n_expected = max(1, len(ri.ops_att))
+        if ri.plain:
+            want = ri.expected_fields()
+            ctx.case(objd.line_shape(ri), True)
+            ctx.event("instructions_judged")
+            if d[2] != want[2]:
+                ctx.disagreement({"origin": origin, "listing": ri.raw + "\n"},
+                                 f"{note}operands {list(d[2])} differ from the normal form {list(want[2])} for line {ri.raw!r}")
+                continue
+            if len(ri.ops_att) >= 2:
+                ctx.sample("multi-operand", {"line": ri.raw, "stream_operands": list(d[2])})
+            elif any(o.startswith(("-", "0x")) and "(" in o for o in ri.ops_att):
+                ctx.sample("memory", {"line": ri.raw, "stream_operands": list(d[2])})
+        else:
+            ctx.event("unspecified_shape_count_only")
+            if len(d[2]) != n_expected:
+                ctx.disagreement({"origin": origin, "listing": ri.raw + "\n"},
+                                 f"{note}{len(d[2])} operands in the stream {list(d[2])}, {n_expected} in the line {ri.raw!r}")
+
+
+RANGE_RULE = "config:\n  valid_addr_range:\n    min: '0'\n    max: 'ffffffffffffffff'\npattern:\n  - zzzzzz\n"
 
 
 def judge_listing(ctx, ws, text, origin):
-    if origin.endswith("crlf"):
+    if "crlf" in origin:
         p = ws.write("in.s", text.replace("\n", "\r\n").encode())
     else:
         p = ws.write("in.s", text)
@@ -34,27 +80,26 @@ def judge_listing(ctx, ws, text, origin):
     if len(dec) != len(rinsts):
         ctx.inconc("record count differs from listing (left to C08)")
         return
-    for d, ri in zip(dec, rinsts):
-        if "," in ri.parsed.mnemonic or ri.parsed.prefixes:
-            continue
-        n_expected = max(1, len(ri.ops_att))
-        if ri.plain:
-            want = ri.expected_fields()
-            ctx.case(objd.line_shape(ri), True)
-            ctx.event("instructions_judged")
-            if d[2] != want[2]:
-                ctx.disagreement({"origin": origin, "listing": ri.raw + "\n"},
-                                 f"operands {list(d[2])} differ from the normal form {list(want[2])} for line {ri.raw!r}")
-                continue
-            if len(ri.ops_att) >= 2:
-                ctx.sample("multi-operand", {"line": ri.raw, "stream_operands": list(d[2])})
-            elif any(o.startswith(("-", "0x")) and "(" in o for o in ri.ops_att):
-                ctx.sample("memory", {"line": ri.raw, "stream_operands": list(d[2])})
-        else:
-            ctx.event("unspecified_shape_count_only")
-            if len(d[2]) != n_expected:
-                ctx.disagreement({"origin": origin, "listing": ri.raw + "\n"},
-                                 f"{len(d[2])} operands in the stream {list(d[2])}, {n_expected} in the line {ri.raw!r}")
+    judge_records(ctx, dec, rinsts, origin)
+    if ctx.rng.random() < 0.35 or "range" in origin:
+        # the normal form is the same whatever the rule configures: a rule with valid_addr_range (every address in range) may
+        # only touch branch targets; afterwards, in the same process, a rule without the option sees the plain normal form again
+        r2 = objd.real_stream(ws, p, rule_text=RANGE_RULE)
+        r3 = objd.real_stream(ws, p)
+        ctx.ran(2)
+        ctx.event("listings_rerun_with_range_then_without")
+        if r2[0] == "ok":
+            try:
+                dec2 = stream.decode(r2[1])
+            except stream.StreamError:
+                dec2 = None
+            if dec2 is not None and len(dec2) == len(rinsts):
+                judge_records(ctx, dec2, rinsts, origin + "+range", "under a rule with valid_addr_range: ", skip_branches=True)
+        if r3[0] != "ok" or r3[1] != r[1]:
+            n = next((i for i, (a, b) in enumerate(zip((r3[1] if r3[0] == "ok" else "").split("|"), r[1].split("|"))) if a != b), -1)
+            ctx.disagreement({"origin": origin + "+range", "listing": text if len(text) < 100000 else text[:100000]},
+                             f"a rule WITHOUT valid_addr_range, run after one that had it, sees other operands: record {n}: "
+                             f"{(r3[1].split('|')[n] if r3[0] == 'ok' and n >= 0 else r3[1:])!r} instead of {(r[1].split('|')[n] if n >= 0 else '')!r}")
 
 
 def run_shard(ctx):
